@@ -329,4 +329,44 @@ def popenStoredOk (o : Obs) (after : Option Int) : Prop :=
 instance (o : Obs) (a : Option Int) : Decidable (popenStoredOk o a) := by
   unfold popenStoredOk; split <;> infer_instance
 
+
+/-! ### second extension -/
+
+/-- what `wait_procs` must refuse, items included: negative timeout → ValueError; otherwise an item
+    that cannot be hashed → TypeError (`set(procs)`); otherwise a non-callable callback → TypeError -/
+def wpRefusalM (timeout : Option Rat) (hashable cbGiven cbCallable : Bool) : Option WPRefusal :=
+  if negative timeout then some .valueError
+  else if !hashable then some .typeError
+  else wpRefusal timeout cbGiven cbCallable
+
+/-- system calls that take up to δ: whatever the call does, it has done it before
+    start + timeout + 40 ms + 5·δ -/
+def returnsByC (a : Ask) (o : Obs) (δ : Rat) : Prop :=
+  match a.timeout with
+  | some τ => 0 ≤ τ → o.ret < a.start + τ + cap + 5 * δ
+  | none => True
+
+instance (a : Ask) (o : Obs) (δ : Rat) : Decidable (returnsByC a o δ) := by
+  unfold returnsByC; split <;> infer_instance
+
+/-- … and TimeoutExpired(seconds = timeout, pid) comes at/after the deadline, the process not
+    having ended δ before the raise instant -/
+def timeoutSoundC (a : Ask) (o : Obs) (δ : Rat) : Prop :=
+  match o.out with
+  | .timeout sec p =>
+    a.timeout = some sec ∧ p = a.pid ∧ a.start + sec ≤ o.ret ∧ ¬ endedBy a.env (o.ret - δ)
+  | _ => True
+
+instance (a : Ask) (o : Obs) (δ : Rat) : Decidable (timeoutSoundC a o δ) := by
+  unfold timeoutSoundC; split <;> infer_instance
+
+def violationsC (a : Ask) (o : Obs) (δ : Rat) (clean : Bool) : List String :=
+  (if neverEarly a o then [] else ["neverEarly"]) ++
+  (if rightStatus a o then [] else ["rightStatus"]) ++
+  (if returnsByC a o δ then [] else ["returnsBy+5δ"]) ++
+  (if clean = false ∨ timeoutSoundC a o δ then [] else ["timeoutSound-δ"]) ++
+  (if intervalsOk o then [] else ["intervals"]) ++
+  (if zeroNeverSleeps a o then [] else ["zeroNeverSleeps"]) ++
+  (if comesBack a o then [] else ["comesBack"])
+
 end Psutil.C15.Spec
